@@ -12,6 +12,10 @@ from .position_vector import LongPositionVector, TST
 from .exceptions import DuplicatedPacketException
 
 
+# Placeholder PV of a LocTE that has not received any position vector yet (frozen, shared).
+_NO_POSITION_VECTOR = LongPositionVector()
+
+
 class LocationTableEntry:
     """
     Location table entry class. As specified in ETSI EN 302 636-4-1 V1.4.1 (2020-01). Section 8.1.2
@@ -43,7 +47,7 @@ class LocationTableEntry:
         # In the future the version will be corrected, now if the version is not the same all packets are dropped
         self.version: int = mib.itsGnProtocolVersion
         self.position_vector_lock = Lock()
-        self.position_vector: LongPositionVector = LongPositionVector()
+        self.position_vector: LongPositionVector = _NO_POSITION_VECTOR
         self.ls_pending: bool = False
         self.is_neighbour: bool = False
         self.tst_lock = Lock()
@@ -79,10 +83,10 @@ class LocationTableEntry:
             Position vector to update.
         """
         with self.position_vector_lock:
-            if self.position_vector.tst.msec == 0:
+            if self.position_vector is _NO_POSITION_VECTOR:
                 # §C.2: initial entry – accept first PV unconditionally.
-                # TST.__gt__ comparison against TST(0) is unreliable for current
-                # real-world timestamps (mod 2^32 > 2^31) due to wrap-around logic.
+                # (Not decided by TST == 0: 0 is a genuine timestamp once per 2^32 ms, and a stored
+                # PV with that timestamp must not be replaced by an older one.)
                 self.position_vector = position_vector
             elif position_vector.tst > self.position_vector.tst:
                 # §C.2: received PV is strictly newer → update
